@@ -88,7 +88,7 @@ pub fn generate(rng: &mut Rng, thorough: bool) -> Vec<String> {
             let (y, m, d) = ymd_of(day);
             // updating a date from its own fields, from a partial record; its year-month
             match rng.below(6) {
-                0 => v.push(format!("cal_withid {cal} {y} {m} {d}")),
+                0 => v.push(format!("cal_withid {cal} {y} {m} {d} {}", rng.pick(&["d", "d", "y", "yd", "c", "cd", "yc", "ycd", "e", "ed", "ec"]))),
                 // (the first day of the month of the first representable days lies in a month outside the limits)
                 1 if day > -100_000_001 + 40 => v.push(format!("cal_toymc {cal} {y} {m} {d}")),
                 2 if modelled => v.push(format!("cal_toym {cal} {y} {m} {d}")),
@@ -318,7 +318,19 @@ pub fn eval(t: &[&str]) -> Option<String> {
             // applying a date's own day to itself; a failure is marked with the circumstance of the date
             let d = match iso(i(t[2]), i(t[3]), i(t[4]), t[1]) { Ok(d) => d, Err(e) => return Some(format!("err {}", err_kind(&e))) };
             let mut p = PartialDate::default();
-            p.day = Some(d.day());
+            // which of its own fields the date is given back (default: the day)
+            let which = if t.len() > 5 { t[5] } else { "d" };
+            if which.contains('d') { p.day = Some(d.day()); }
+            if which.contains('y') { p.year = Some(d.year()); }
+            if which.contains('c') { p.month_code = Some(d.month_code()); }
+            if which.contains('e') {
+                if let (Some(e), Some(ey)) = (d.era(), d.era_year()) {
+                    p.era = TinyAsciiStr::<19>::try_from_str(e.as_str()).ok();
+                    p.era_year = Some(ey);
+                } else {
+                    p.year = Some(d.year());
+                }
+            }
             match d.with(p, Some(ArithmeticOverflow::Reject)) {
                 Ok(r) => format!("ok {} {} {}", r.iso_year(), r.iso_month(), r.iso_day()),
                 Err(e) => format!("err {}{}", err_kind(&e), date_marks(&d)),
@@ -342,6 +354,12 @@ pub fn eval(t: &[&str]) -> Option<String> {
                 if first.month_code() != d.month_code() { bad.push(format!("code {}!={}", first.month_code().as_str(), d.month_code().as_str())); }
                 if first.day() != 1 { bad.push(format!("day {}", first.day())); }
                 if ym.year() != d.year() || ym.month_code() != d.month_code() || ym.month() != d.month() { bad.push("getters".to_string()); }
+                // every year-month getter reads the calendar at the stored reference day
+                if ym.era() != first.era() || ym.era_year() != first.era_year() { bad.push("era".to_string()); }
+                if ym.days_in_month() != first.days_in_month() { bad.push(format!("daysInMonth {}!={}", ym.days_in_month(), first.days_in_month())); }
+                if ym.days_in_year() != first.days_in_year() { bad.push(format!("daysInYear {}!={}", ym.days_in_year(), first.days_in_year())); }
+                if ym.months_in_year() != first.months_in_year() { bad.push(format!("monthsInYear {}!={}", ym.months_in_year(), first.months_in_year())); }
+                if ym.in_leap_year() != first.in_leap_year() { bad.push("inLeapYear".to_string()); }
                 Ok(if bad.is_empty() { "first-of-month".to_string() } else { format!("MISMATCH {}", bad.join(",")) })
             });
             match r {
